@@ -224,6 +224,65 @@ func runLock(cfg *config) {
 			return
 		}
 	}
+	// the console's signal handler closes the session while a statement runs: the statement either is
+	// acknowledged and durable, or returns an error and leaves nothing behind
+	{
+		must("CREATE TABLE c1 (a int, b varchar(255))")
+		reached := make(chan struct{}, 1)
+		var once int32
+		storage.VerifSetHook(func(ev string, arg uint64) {
+			if strings.HasPrefix(ev, "wal.") && atomic.CompareAndSwapInt32(&once, 0, 1) {
+				reached <- struct{}{}
+				time.Sleep(200 * time.Millisecond)
+			}
+		})
+		cfg.tr.Op("close-during-statement")
+		stmtRes := make(chan string, 1)
+		go func() {
+			r := "ok"
+			if pm := hx.Catch(func() {
+				if err := sess.ExecQuery("INSERT INTO c1 VALUES (1, 'a'), (2, 'b'), (3, 'c')"); err != nil {
+					r = "err"
+				}
+			}); pm != "" {
+				r = "panic"
+			}
+			stmtRes <- r
+		}()
+		out := ""
+		wdog.Run(func() {
+			select {
+			case <-reached:
+			case <-time.After(5 * time.Second):
+				out = "statement never reached its log append"
+				return
+			}
+			closed := make(chan struct{})
+			go func() { hx.Catch(func() { sess.Close() }); close(closed) }()
+			r := <-stmtRes
+			<-closed
+			storage.VerifSetHook(nil)
+			// the next start of the program
+			if err := storage.InitStorage(); err != nil {
+				out = fmt.Sprintf("stmt=%s recovery failed", r)
+				return
+			}
+			sess = &engine.Session{}
+			if err := sess.ExecQuery("USE lk"); err != nil {
+				out = fmt.Sprintf("stmt=%s use failed", r)
+				return
+			}
+			rows, _, err := sess.RelationService.Fetch("c1")
+			if err != nil {
+				out = fmt.Sprintf("stmt=%s fetch failed", r)
+				return
+			}
+			out = fmt.Sprintf("stmt=%s rows=%d", r, len(rows))
+		})
+		storage.VerifSetHook(nil)
+		cfg.tr.Tilde(out)
+		cfg.st.Inc("close-during-statement")
+	}
 	rounds := 2 * cfg.scale
 	for i := 0; i < rounds; i++ {
 		park("insert", fmt.Sprintf("INSERT INTO t VALUES (%d, 'x'), (%d, 'y'), (%d, 'z')", 3*i, 3*i+1, 3*i+2))
